@@ -19,7 +19,8 @@ func c19(c *eng.Ctx, r *eng.Report) {
 		"R19.2 AddGroup saves only under the chain lock, after the parent exists and the predecessor equals the current last group; " +
 		"R19.3 start-up reloads exactly the keys save writes and height lookups use the same key derivation; " +
 		"R19.4 count, lastGroup and the groups store are written only by save, remove and initGroupChain; " +
-		"R19.5 every caller of remove walks from the current top downwards (remove is only correct for the last group). " +
+		"R19.5 every caller of remove walks from the current top downwards (remove is only correct for the last group); " +
+		"R19.6 no process-local cache sits in front of the group store unless remove() evicts from it. " +
 		"Not decided: a crash between the un-batched Puts of one save/remove (no intent mark exists)."
 	r.Assume = []string{"groupChain methods that mutate run under chain.lock (checked for AddGroup; removeFromCommonAncestor takes it itself)"}
 	save := c.Func("core", "(*groupChain).save")
@@ -36,6 +37,7 @@ func c19(c *eng.Ctx, r *eng.Report) {
 	}
 	c19Inverse(c, r, save, remove)
 	c19RemoveTopDown(c, r, remove)
+	c19Caches(c, r, remove)
 	c19AddGroup(c, r)
 	c19Keys(c, r, save)
 	c19Writers(c, r)
@@ -223,6 +225,38 @@ func c19RemoveTopDown(c *eng.Ctx, r *eng.Report, remove *ssa.Function) {
 			}
 		}
 		r.Check(okInit && okStep, rule, key, c.Pos(site.Pos()), "groups are removed from the current top downwards (height starts at chain.height() and decreases by one)", eng.FuncName(fn)+" does not call remove() on the groups from the top downwards (starts at the top="+fmt.Sprint(okInit)+", steps by -1="+fmt.Sprint(okStep)+"): remove() assumes it is given the current last group, so with two or more groups to drop the wrong index entry is deleted and count, list and height index diverge")
+	}
+}
+
+// c19Caches: a cache in front of the group store answers as the store does
+// only if remove() evicts what it removes.
+func c19Caches(c *eng.Ctx, r *eng.Report, remove *ssa.Function) {
+	const rule = "R19.6"
+	r.Min(rule, 1)
+	evicted := map[string]bool{}
+	for _, h := range eng.ScanNondeterminism(remove) {
+		if h.Kind != "cache" {
+			continue
+		}
+		if f := h.Instr.(*ssa.Call).Call.StaticCallee(); f != nil && (f.Name() == "Remove" || f.Name() == "Purge" || f.Name() == "Delete" || f.Name() == "Del" || f.Name() == "Reset") {
+			evicted[h.Recv] = true
+		}
+	}
+	seen := map[string]bool{}
+	for _, fn := range c.PkgFuncs("core") {
+		if c.IsTestFunc(fn) || fn.Signature.Recv() == nil || !strings.HasSuffix(eng.ShortType(fn.Signature.Recv().Type()), "core.groupChain") {
+			continue
+		}
+		for _, h := range eng.ScanNondeterminism(fn) {
+			if h.Kind != "cache" || seen[h.Recv] {
+				continue
+			}
+			seen[h.Recv] = true
+			r.Check(evicted[h.Recv], rule, "cache:"+h.Recv, c.Pos(h.Pos), "entries are evicted by remove()", eng.FuncName(fn)+" answers from the process-local cache "+h.Recv+", but groupChain.remove evicts nothing from it: after a group is removed (fork switch) a lookup still returns the removed group, and after a different group is added at that height the height index no longer matches the list")
+		}
+	}
+	if len(seen) == 0 {
+		r.Pass(rule, "cache:none", "", "no process-local cache sits in front of the group store (every lookup reads the database)")
 	}
 }
 
